@@ -10,5 +10,7 @@ cargo build --offline -q --release --bin impl_driver --bin zoracle
 cargo build --offline -q --bin impl_driver --bin zoracle
 cargo build --offline -q --profile relchk --bin impl_driver --bin zoracle
 # translate src/blend.rs and prove the tie once (cached by content hash; the checks re-translate every run)
-python3 -c "import sys; sys.path.insert(0, '/verif/tools'); import vplib; ob = vplib.gen_blend_obligations(); print('gen:', 'ok' if ob.ok else ob.errors)"
+python3 -c "import sys; sys.path.insert(0, '/verif/tools'); import vplib
+for p in ('C17', 'C03'):
+    ob = vplib.gen_blend_obligations(p); print('gen', p, 'ok' if ob.ok else ob.errors)"
 echo "setup: ok"
